@@ -396,8 +396,16 @@ def random_programs(rng):
     return progs, cbs, misuse
 
 
-def case_lines(progs, mode, seed=0, stay=50, spur=0, choices=None, picks=None, evs=None, cbs=(), tick=0):
+# thread options handed to aws_thread_scheduler_new: (cpu_id, name, inject-first-create-failure).  A refused launch attempt
+# (cpu the OS does not accept / injected EINVAL) makes aws_thread_launch discard its first wrapper - with the copy of the
+# name - and retry unpinned; the allocator balance after the final release shows whether everything was given back.
+TOPTS = [None, None, None, (0, "c08-worker", 1), (1000, "c08-pinned", 0), (-1, "named-only", 0), (3, "-", 1), (0, "n", 1)]
+
+
+def case_lines(progs, mode, seed=0, stay=50, spur=0, choices=None, picks=None, evs=None, cbs=(), tick=0, topt=None):
     ls = [f"cfg {len(progs)} {mode} {seed} {stay} {spur}" + (f" {tick}" if tick else "")]
+    if topt:
+        ls.append(f"topt {topt[0]} {topt[1]} {topt[2]}")
     for i, p in enumerate(progs):
         ls.append(f"prog {i} " + _fmt(p))
     for (t, k, op) in cbs:
@@ -448,7 +456,7 @@ def _run_batch(exe, batch):
 def record(exe, specs, jobs=16):
     """specs: list of dict(progs, mode, seed, stay, spur, choices).  Returns list of (spec, picks|None, evs|None)."""
     items = [(i, case_lines(s["progs"], s["mode"], s.get("seed", 0), s.get("stay", 50), s.get("spur", 0), s.get("choices"),
-                            cbs=s.get("cbs", ()), tick=s.get("tick", 0)))
+                            cbs=s.get("cbs", ()), tick=s.get("tick", 0), topt=s.get("topt")))
              for i, s in enumerate(specs)]
     jobs = max(1, min(jobs, len(items)))
     chunks = [items[k::jobs] for k in range(jobs)]
@@ -482,12 +490,14 @@ def gen_cases(rng, tier):
     for si in range(len(NAMED)):
         name, progs, cbs, misuse = _named(si)
         for _ in range(60 if quick else 400):
-            specs.append(dict(progs=progs, cbs=cbs, misuse=misuse, tick=_named_tick(si), mode="seed", seed=rng.randrange(1, 2**31),
+            specs.append(dict(progs=progs, cbs=cbs, misuse=misuse, tick=_named_tick(si), topt=rng.choice(TOPTS), mode="seed",
+                              seed=rng.randrange(1, 2**31),
                               stay=rng.choice([0, 30, 60, 85]), spur=rng.choice([0, 0, 50, 250]), name=name))
     # 2. random program sets
     for _ in range(3000 if quick else 40000):
         progs, cbs, misuse = random_programs(rng)
-        specs.append(dict(progs=progs, cbs=cbs, misuse=misuse, tick=rng.choice([0, 0, 0, 1, 3, 1000]), mode="seed",
+        specs.append(dict(progs=progs, cbs=cbs, misuse=misuse, tick=rng.choice([0, 0, 0, 1, 3, 1000]), topt=rng.choice(TOPTS),
+                          mode="seed",
                           seed=rng.randrange(1, 2**31),
                           stay=rng.choice([0, 30, 60, 85]), spur=rng.choice([0, 0, 50, 250]), name="random"))
     # 3. bounded-preemption enumeration: first the run-to-block schedule to learn its length
@@ -512,7 +522,7 @@ def gen_cases(rng, tier):
     cases = []
     for spec in specs:
         ops = case_lines(spec["progs"], spec["mode"], spec.get("seed", 0), spec.get("stay", 50), spec.get("spur", 0),
-                         spec.get("choices"), cbs=spec.get("cbs", ()), tick=spec.get("tick", 0))
+                         spec.get("choices"), cbs=spec.get("cbs", ()), tick=spec.get("tick", 0), topt=spec.get("topt"))
         cases.append(Case(ops, {"scenario": spec.get("name"), "mode": spec["mode"], "clients": len(spec["progs"]),
                                 "reentrant": bool(spec.get("cbs")), "misuse_after_release": bool(spec.get("misuse"))}))
     return cases
